@@ -861,8 +861,16 @@ def i_CMPXCHG(i, fmap):
     dst, src = i.operands
     acc = {8: al, 16: ax, 32: eax}[dst.size]
     t = fmap(acc == dst)
-    fmap[zf] = tst(t, bit1, bit0)
+    # flags are set as for CMP acc, dst:
+    a = fmap(acc)
     v = fmap(dst)
+    x, carry, overflow = SubWithBorrow(a, v)
+    fmap[af] = halfborrow(a, v)
+    fmap[zf] = tst(t, bit1, bit0)
+    fmap[sf] = x < 0
+    fmap[cf] = carry
+    fmap[of] = overflow
+    fmap[pf] = parity8(x[0:8])
     fmap[dst] = tst(t, fmap(src), v)
     fmap[acc] = v
 
